@@ -93,6 +93,15 @@ def subtree_atoms(s):
     return out
 
 
+def subtree_scheds(s):
+    out = []
+    for j in s.jobs:
+        if isinstance(j, _Sched):
+            out.append(j)
+            out += subtree_scheds(j)
+    return out
+
+
 def contains_empty(s):
     """s is empty or contains an empty scheduler at some depth"""
     if not s.jobs:
@@ -211,10 +220,16 @@ def check_dot(out, top, info, text):
                     continue
                 inside = {ids[a] for a in subtree_atoms(sched)}
                 if nid not in inside:
-                    # tolerated only when the scheduler holds no atomic job at all
-                    if inside:
+                    # otherwise: a placeholder node declared inside this cluster,
+                    # in the cluster of an empty scheduler (itself or a nested one)
+                    holders = [sched] + [x for x in subtree_scheds(sched)]
+                    ok = any(not h.jobs and any(owner == "cluster_" + ids[h] for owner, _ in placed.get(nid, []))
+                             for h in holders)
+                    if not ok:
                         out.violation('edge-anchor', "edge %s -> %s: %s=%s but node %s is not inside that cluster"
                                       % (tail, head, key, attrs[key], nid))
+                    else:
+                        out.count('cluster edges anchored on the placeholder of an empty scheduler')
                 ends.append(sched)
             else:
                 job = by_id.get(nid)
